@@ -5,14 +5,18 @@ import PepperProofs.Codes
 # Proofs about the design-file reader and `apply_design` (`PepperModel/Finish.lean`)
 
 Contents
-* `Forall₂`, `mapM`/`foldlM` inversion lemmas for `Except`.
-* `applyComp_ok` / `apply_ok_iff`: what a successful `apply` means, component by component.
-* the specification vocabulary of C17 / C06: `atomVal`, `AtomOk`, `IsConcat`, `CompRel`, `Relations`,
+* `Forall₂`, `mapM`/`foldlM` inversion lemmas for `Except`; `wcStr` is injective where defined.
+* `applyComp_eq` / `applyComp_ok` / `apply_ok_iff`: what a successful `apply` means, component by component.
+* the specification vocabulary of C17 / C06: `atomVal`, `AtomOk`, `IsConcat`, `IsJoin`, `CompRel`, `Relations`,
   `relevant`, `wfB`.
-* `apply_relations` (never writes a broken relation), `apply_congr_relevant` (only relevant records are
-  read), `apply_single_corruption` (one changed relevant record is always detected).
-* `Snap` / `snapshot` / `applySnap`: `apply` factors through the snapshot (C16).
-* `render` (mirror of the writer `Convert.output`) and the reader round trip.
+* `apply_relations` / `apply_ok_iff_relations` (success ⇔ the relations hold), `apply_congr_relevant` (only
+  relevant records are read), `apply_single_corruption` (one changed relevant record is always detected).
+* `Relations.*_names`: what the two output files list.
+* `SnapComp` / `snapshot` / `apply_snapshot`: `apply` reads a tree only through its snapshot (C16).
+* `finishText` (read, then apply).
+* `render` (mirror of the writer `Convert.output`), `wfRec`, and the reader round trip `readDesign_render`.
+* `pil*Decls` / `st*Decls` / `treeSeqDecls` / `allComps` / `depth`: the saved state against the emitted `.pil`
+  (`compStmts_*Decls`, `instStmts_decls`, `compsOf_allComps`) (C16).
 -/
 namespace Pepper.Finish
 open Pepper.Comp Pepper.Sys
@@ -1355,7 +1359,6 @@ theorem readDesign_render {alpha : List Char} (ha : okAlpha alpha = true) {total
 
 /-! ### the saved state against the `.pil` written by the same compile (C16) -/
 
-open Pepper.Emit in
 /-- what a statement list declares, kind by kind -/
 def pilSeqDecls (l : List Pil.Stmt) : List (String × Nat) :=
   l.filterMap (fun st => match st with | .seq n tpl => some (n, tpl.length) | _ => none)
